@@ -283,6 +283,13 @@ def build(prog: dict) -> dict:
         if checks:
             res["records"].append({"id": rid + "#post", "rel": "struct", "g": gb,
                                    "checks": checks, "pairs": []})
+        if step == "mpms" and not rename:
+            try:
+                g_before, _ = export.export_graph(cur)
+                res["records"].append({"id": rid + "#mpmsrule", "rel": "mpms", "a": g_before,
+                                       "b": gb, "outs": [o["node"] for o in g_before["outs"]]})
+            except export.Unsupported:
+                pass
         # relations between input and output of this step / idempotence
         if step in TAG_ONLY or step in ("copy", "map_and_copy") or step in IDEMPOTENT:
             ge = export.GraphExporter()
